@@ -179,6 +179,24 @@ def run(prog: Program, rep: Report, tier: str):
     rep.rule("C06.keys", "_get_sample_keys returns reshape(split(key, max(1, prod(sample_shape + leading condition "
                          "shape))), (*key_shape, 2)) with the leading shape cut at -cond_ndim or None; on every path "
                          "(no shortcut that broadcasts one key); cond_ndim = None iff unconditional", minimum=3)
+    # a function mapped over keys that ignores its key argument and splits a captured key instead gives every element
+    # of that axis the same keys (repeated draws), whatever the rest of the construction looks like
+    r_ = prog.find_method(c, "_get_sample_keys")
+    if r_ is not None:
+        import ast as _ast
+        for n_ in _ast.walk(r_[1]):
+            if isinstance(n_, (_ast.Lambda, _ast.FunctionDef)) and n_ is not r_[1]:
+                params = [p_.arg for p_ in n_.args.posonlyargs + n_.args.args]
+                body = [n_.body] if isinstance(n_, _ast.Lambda) else n_.body
+                reads = {x.id for b in body for x in _ast.walk(b) if isinstance(x, _ast.Name) and isinstance(x.ctx, _ast.Load)}
+                rnd = [x for b in body for x in _ast.walk(b) if isinstance(x, _ast.Call) and
+                       _ast.unparse(x.func).startswith(("jr.", "jax.random.", "random."))]
+                unused = [p_ for p_ in params if p_ not in reads]
+                if unused and rnd and any(isinstance(a0, _ast.Name) and a0.id not in params for x in rnd for a0 in x.args[:1]):
+                    rep.violated("C06.keys", f"{r_[0].module.relpath}:{n_.lineno}", "_get_sample_keys:mapped-function-uses-its-key",
+                                 f"the function mapped over keys ignores its parameter {unused} and derives keys from the "
+                                 f"captured `{_ast.unparse(rnd[0].args[0])}`: every element along that axis receives the same "
+                                 f"keys, so elements of one batched sample repeat draws")
     got = Interp(prog).eval_method(c, "_get_sample_keys", [KEY, SS, CONDS])
     want = eval_ref_method(prog, c, KEYS_REF, [KEY, SS, CONDS])
     alt = eval_ref_method(prog, c, KEYS_REF_SHAPED, [KEY, SS, CONDS])
